@@ -74,6 +74,28 @@ CLAIMED = {
              'integrals (per periodic basis function on periodic spaces). Counter-models replayed on the float code.',
         design_ref='DESIGN.md 4 C09',
         note=TRUST + 'Bounds: degrees 1-5 (thorough 1-6), listed knot families, cells <= 8, uniform-cubic fast path. Solver contracts as C08.'),
+    'C16': dict(
+        category='proof',
+        technique='symbolic execution of the real DensityFinder / poisson_tools on every simulated rank with the whole distribution function symbolic (z3 Reals); linear real arithmetic queries',
+        text='Bounded solver proof in exact reals for all distribution functions: on every rank of the simulated process grid, every '
+             'local density entry equals the exact velocity integral of the spline interpolating f along v at the entry\'s global '
+             '(r,theta,z) (independent exact weights = oracle collocation + oracle basis integrals) minus, for the perturbed density, '
+             'the equilibrium at the global radius (exp/tanh/sqrt uninterpreted). Linearity, zero for the equilibrium and independence '
+             'of the decomposition follow from that identity.',
+        design_ref='DESIGN.md 4 C16',
+        note=TRUST + 'Bounds: extents (3..4,2,3), process grids {1,2}^2 (thorough {1,2,3}^2), listed v spline spaces. Complex storage not distinguished.'),
+    'C17': dict(
+        category='proof',
+        technique='symbolic execution of the real diagnostic classes, Grid.getMin/getMax and DiagnosticCollector on every simulated rank with the whole field symbolic; z3 polynomial identities / min-max characterisation',
+        text='Bounded solver proof in exact reals for all fields: the sum over the ranks (of one replica) of l2^2, l1, particle number and '
+             'kinetic energy equals the serial trapezoid/rectangle quadrature of the assembled global field in every 4-D layout and every '
+             'layout of the driver\'s 3-D swapper (replicated ones included); min/max reported at the drawing rank equal the global '
+             'min/max for the whole grid and for every fixed-index slice (dimension and index forked by the solver; ranks without the '
+             'slice contribute the neutral element); unit field gives the analytic volume factor; the collector stores step k in slot '
+             'k mod saveStep and reduces to rank 0.',
+        design_ref='DESIGN.md 4 C17',
+        note=TRUST + 'Bounds: extents 3^4 (min/max (3,2,3,2)), grids {1,2}^2 (thorough {1,2,3}^2). Not claimed: float t//dt, reduction-order rounding; '
+                     'collector min/max exercised on a concrete exact field.'),
     'C20': dict(
         category='proof',
         technique='concolic symbolic execution of the real Python function on z3 Int proxies; per-path SMT queries (bounded)',
